@@ -274,6 +274,62 @@ fn boundary_cases(tier: Tier) -> Vec<Case> {
     v
 }
 
+// (4) every feature nested inside every other: expression constructors with one hole, composed
+// `depth` deep over a few leaves.  The setup declares what the constructors use.
+const NEST_SETUP: &str = "fn id(p) {\nreturn p\n}\nfn tag(p) {\nreturn $\"<${p}>\"\n}\nfn wrap(p) {\nreturn [p]\n}\no := {\"m\": fn(p) {\nreturn p\n}, \"k\": [1]}\nxs := [1, [2]]\n";
+const NEST_CTX: [&str; 30] = [
+    "[@]",
+    "{\"k\": @}",
+    "[@..]",
+    "{@..}",
+    "@ + @",
+    "@ == @",
+    "(@)",
+    "-@",
+    "!@",
+    "@ && true",
+    "id(@)",
+    "tag(@)",
+    "wrap(@)",
+    "id(@..)",
+    "o.m(@)",
+    "o[\"m\"](@)",
+    "$\"a${@}b\"",
+    "$\"${@}${@}\"",
+    "@[0]",
+    "@.k",
+    "@[0:1]",
+    "@[:]",
+    "xs[@]",
+    "o[@]",
+    "@->type()",
+    "@->len()",
+    "fn() {\nreturn @\n}()",
+    "0 .. @",
+    "[1, @, 3][1]",
+    "{\"k\": @}.k",
+];
+const NEST_LEAVES: [&str; 9] = ["1", "0", "\"k\"", "\"é\"", "[1]", "{\"k\": \"k\"}", "null", "xs", "o"];
+
+fn nesting_cases(tier: Tier) -> Vec<Case> {
+    let depth = tier.pick(2usize, 3usize);
+    let mut exprs: Vec<String> = NEST_LEAVES.iter().map(|s| s.to_string()).collect();
+    for _ in 0..depth {
+        let mut next = vec![];
+        for c in NEST_CTX {
+            for e in &exprs {
+                next.push(c.replace('@', e));
+            }
+        }
+        exprs = next;
+    }
+    let mut v = vec![];
+    for e in &exprs {
+        v.push(Case::new(format!("{}print(\"pre\")\nr := {}\nprint(r)\nprint(\"post\")\n", NEST_SETUP, e), 4, format!("nesting {}", e.replace('\n', " "))));
+    }
+    v
+}
+
 impl Check for C02 {
     fn id(&self) -> &'static str {
         "C02"
@@ -282,7 +338,7 @@ impl Check for C02 {
     fn run(&self, ctx: &mut Ctx) -> Result<(), MachineryError> {
         let depth = std::env::var("C02_DEPTH").ok().and_then(|s| s.parse().ok()).unwrap_or(ctx.tier.pick(5usize, 7usize));
         ctx.rule = format!(
-            "(1) breadth-first over all histories of <= {} operations from {} alias-shape operations on a, b, c (store a container in itself / in another / both ways, += and element += with the container on both sides, range assignment from itself, collect and spread of itself, loops that rebind or overwrite what they iterate, print, ==, !=, === against itself and wrappers of itself, a function that mutates one parameter and compares it with the other); states merged when the reference heap graphs (cycles included) are isomorphic; (2) 16 binary operators x 24^2 ordered operand pairs over aliased and cyclic shapes, 5 op-assign operators and plain assignment x 9 places x 24 operands, 13 contexts x 24 operands; (3) integer boundary pairs x 5 operators, multi-byte text around slots, out-of-range slices; oracle: the run ends by completion or diagnostic, never a panic, signal or hang; non-trivial = all",
+            "(1) breadth-first over all histories of <= {} operations from {} alias-shape operations on a, b, c (store a container in itself / in another / both ways, += and element += with the container on both sides, range assignment from itself, collect and spread of itself, loops that rebind or overwrite what they iterate, print, ==, !=, === against itself and wrappers of itself, a function that mutates one parameter and compares it with the other); states merged when the reference heap graphs (cycles included) are isomorphic; (2) 16 binary operators x 24^2 ordered operand pairs over aliased and cyclic shapes, 5 op-assign operators and plain assignment x 9 places x 24 operands, 13 contexts x 24 operands; (3) integer boundary pairs x 5 operators, multi-byte text around slots, out-of-range slices; (4) 30 one-hole expression constructors (literals, spreads, operators, calls of plain / interpolating / wrapping functions, methods, interpolation slots, indexing, ranges, type functions, immediately called function literals) composed 2 deep (thorough: 3) over 9 leaves; oracle: the run ends by completion or diagnostic, never a panic, signal or hang; non-trivial = all",
             depth,
             OPS.len()
         );
@@ -306,12 +362,15 @@ impl Check for C02 {
         let b = boundary_cases(ctx.tier);
         let n_boundary = b.len();
         ctx.judge(b, |c, r, o| self.oracle(c, r, o))?;
+        let nest = nesting_cases(ctx.tier);
+        let n_nest = nest.len();
+        ctx.judge(nest, |c, r, o| self.oracle(c, r, o))?;
         ctx.guard("a container reachable from itself was printed or compared", g_cyclic);
         ctx.extra.insert(
             "bounds".into(),
             json!({"max_operations": depth, "completed_depth": stats.completed_depth, "operations": OPS.len(),
                    "levels(depth,generated,kept)": stats.levels, "dead_states": stats.dead, "merged_states": stats.merged,
-                   "matrix_cases": n_matrix, "boundary_cases": n_boundary}),
+                   "matrix_cases": n_matrix, "boundary_cases": n_boundary, "nesting_cases": n_nest}),
         );
         Ok(())
     }
